@@ -500,6 +500,53 @@ func runC08(r *Report, rng *rand.Rand, thorough bool) {
 			}
 		}
 	}
+	// ---- "the referenced named type for $ref": the name is the one the CURRENT document and configuration give the
+	// component (x-go-name, name normaliser), generation after generation in one process
+	{
+		mk := func(goName string, comp string) []byte {
+			owner := map[string]any{"type": "object", "properties": map[string]any{"n": map[string]any{"type": "string"}}}
+			if goName != "" {
+				owner["x-go-name"] = goName
+			}
+			b, _ := json.Marshal(map[string]any{"openapi": "3.0.3", "info": map[string]any{"title": "c", "version": "1"}, "paths": map[string]any{},
+				"components": map[string]any{"schemas": map[string]any{comp: owner,
+					"Pet": map[string]any{"type": "object", "properties": map[string]any{"owner": map[string]any{"$ref": "#/components/schemas/" + comp}}}}}})
+			return b
+		}
+		type step struct {
+			label, comp, goName, normalizer, want string
+		}
+		steps := []step{
+			{"x-go-name: Proprietor", "Owner", "Proprietor", "", "Proprietor"},
+			{"no x-go-name", "Owner", "", "", "Owner"},
+			{"x-go-name: Keeper", "Owner", "Keeper", "", "Keeper"},
+			{"pet_owner_id, default normaliser", "pet_owner_id", "", "", "PetOwnerId"},
+			{"pet_owner_id, ToCamelCaseWithInitialisms", "pet_owner_id", "", "ToCamelCaseWithInitialisms", "PetOwnerID"},
+			{"pet_owner_id, default normaliser again", "pet_owner_id", "", "", "PetOwnerId"},
+		}
+		for _, st := range steps {
+			cfg := codegen.Configuration{PackageName: "gen", Generate: codegen.GenerateOptions{Models: true}}
+			cfg.OutputOptions.SkipPrune = true
+			cfg.OutputOptions.NameNormalizer = st.normalizer
+			code, err := generate(mk(st.goName, st.comp), cfg)
+			r.Count("ref-name/"+st.label, true)
+			if err != nil {
+				r.Violate("ref_name_generate_error", st.label+": "+err.Error(), nil)
+				continue
+			}
+			p, _ := parseGo(code)
+			fields, _ := structFields(p, "Pet")
+			got := ""
+			for _, f := range fields {
+				if jsonTagOf(f.Tag) == "owner,omitempty" {
+					got = f.Type
+				}
+			}
+			if !p.typeNames()[st.want] || got != "*"+st.want {
+				r.Violate("ref_names_the_declared_type", fmt.Sprintf("%s: the component is declared as %s (declared: %v), the member that refers to it has type %s", st.label, st.want, p.typeNames()[st.want], got), map[string]any{"step": st.label})
+			}
+		}
+	}
 	fcases.WriteTo(r)
 	tcases.WriteTo(r)
 	r.Exhaustive = true
